@@ -101,9 +101,17 @@ func stateEnumBodyEnded(s *Scanner, c byte) *jerr.JApiError {
 	}
 }
 
-func (s *Scanner) readEnumWithJsc() (uint, *jerr.JApiError) {
+func (s *Scanner) readEnumWithJsc() (length uint, je *jerr.JApiError) {
 	fc := s.file.Content()
 	file := fs.NewFile("", fc.Slice(s.curIndex, bytes.Index(fc.Len()-1)))
+
+	defer func() {
+		// The enum scanner of the schema library reads past its buffer on some malformed
+		// bodies (e.g. "[]/*/" at the end of the file): that is a rejection, not a crash.
+		if r := recover(); r != nil {
+			length, je = 0, s.japiErrorUnexpectedChar("in the enum body", "")
+		}
+	}()
 
 	l, err := enum.FromFile(file).Len()
 	if err != nil {
